@@ -1,6 +1,6 @@
 (** Property C11 — the theorems the check counts as obligations.  Nothing but
     statements closed by [exact] and [Print Assumptions]. *)
-From HS Require Import Base.Prelude C11.Model C11.NodeProofs C11.Election C11.Refute.
+From HS Require Import Base.Prelude C11.Model C11.NodeProofs C11.Election C11.Refute C11.LogProofs.
 Local Open Scope Z_scope.
 
 (** Each node applies indices 1,2,3,... in order without gaps or repeats, for
@@ -53,3 +53,30 @@ Print Assumptions c11_vote_once_per_term.
 Theorem c11_submit_future_refuted : ~ submit_future_statement.
 Proof. exact submit_future_refuted. Qed.
 Print Assumptions c11_submit_future_refuted.
+
+(** Log matching, the per-step part that is proved (PARTIAL; the cluster-level
+    statements [log_matching_statement], [leader_completeness_statement] and
+    [state_machine_safety_statement] of C11/LogProofs.v are stated, not
+    proved, and are checked by the oracle on the implementation).
+    A successful AppendEntries reply reports prev_log_index + len(entries) —
+    never more (the defect fixed in 2aaca38) — and up to that index the
+    follower's log then agrees term for term with what the leader sent, while
+    the entries up to prev_log_index are untouched. *)
+Theorem c11_log_matching_step_partial : forall n src t lead (pli : nat) plt l lc t' f mi,
+  let r := handle_append_entries n src t lead (Z.of_nat pli) plt (with_index (Z.of_nat pli) l) lc in
+  In (OSend src (AppendResponse t' true f mi)) (snd r) ->
+  mi = Z.of_nat pli + zlen l /\
+  (pli + length l <= length (log (fst r)))%nat /\
+  map fst (firstn (pli + length l) (log (fst r))) = map fst (firstn pli (log n)) ++ map fst l /\
+  firstn pli (log (fst r)) = firstn pli (log n).
+Proof. exact append_entries_reply_verified. Qed.
+Print Assumptions c11_log_matching_step_partial.
+
+(** Leader Append-Only (PARTIAL towards leader completeness): a node that is
+    and remains leader of a term never removes or rewrites an entry of its log,
+    whatever it is handed. *)
+Theorem c11_leader_append_only_partial : forall n inp,
+  role n = Leader -> role (fst (node_step n inp)) = Leader -> term (fst (node_step n inp)) = term n ->
+  exists suffix, log (fst (node_step n inp)) = log n ++ suffix.
+Proof. exact leader_append_only. Qed.
+Print Assumptions c11_leader_append_only_partial.
